@@ -65,8 +65,11 @@ ALLOWED_ASSUMPTIONS = {
                              "i64::saturating_sub", "i32::saturating_sub", "i32::rem_euclid", "i32::div_euclid", "i64::div_euclid", "i32::abs",
                              "i64::saturating_abs", "i64::saturating_add", "i32::saturating_add", "i32::wrapping_abs", "i64::wrapping_abs",
                              "i32::unsigned_abs", "i64::unsigned_abs"},
-    "external_body": {"utc", "equal", "axiom_mm_stable"},
+    "external_body": {"utc", "equal"},
 }
+
+
+DELEGATED_LEMMA_NAMES = set()
 
 
 def check_assumptions(found, text):
@@ -89,6 +92,9 @@ def check_assumptions(found, text):
                 continue
             if name not in ALLOWED_ASSUMPTIONS["external_body"]:
                 bad.append("%s %s (line %d)" % (what, name, ln))
+            if "/* delegated */" in code or name in DELEGATED_LEMMA_NAMES:
+                out.append("lemma `%s` assumed in this check, discharged by the property named under coverage.delegated_lemmas" % name)
+                continue
             if name.startswith("axiom_"):
                 out.append("ASSUMED lemma `%s` (external_body proof fn, not proved; see DESIGN.md section 5, C11)" % name)
             else:
@@ -110,8 +116,9 @@ class Outcome:
     def write_evidence(self):
         self.evidence["wall_s"] = round(time.time() - self.t0, 2)
         self.evidence["violations"] = len(self.violations)
-        os.makedirs(os.path.join(VERIF, "evidence"), exist_ok=True)
-        p = os.path.join(VERIF, "evidence", "%s.json" % self.pid)
+        edir = os.environ.get("VERIF_EVIDENCE_DIR") or os.path.join(VERIF, "evidence")
+        os.makedirs(edir, exist_ok=True)
+        p = os.path.join(edir, "%s.json" % self.pid)
         with open(p, "w") as f:
             json.dump(self.evidence, f, indent=1, sort_keys=False)
         return p
@@ -130,6 +137,15 @@ def verus_property(pid, prop, tier, seed, out, work):
         if k not in ex.functions:
             raise extract.Undecided("delegated function %s is not in the extraction (lost anchor)" % k)
     fns, items = extract.cone(ex, lib, roots, lemmas, stop_at=set(delegated))
+    for k in sorted(fns):
+        if ex.functions[k].get("broken"):
+            raise extract.Undecided(ex.functions[k]["broken"])
+    dl = prop.get("delegated_lemmas", {})
+    DELEGATED_LEMMA_NAMES.clear()
+    DELEGATED_LEMMA_NAMES.update(dl)
+    if dl:
+        # lemmas owned by another property: assumed here (rendered external_body), discharged there
+        items = [((n, k, "#[verifier::external_body] /* delegated */\n" + t, f) if n in dl else (n, k, t, f)) for (n, k, t, f) in items]
     text, spans = ex.render(keep_fns=fns, lib_items=items, delegated=set(delegated))
     gen = os.path.join(work, "tzrs_verif_%s.rs" % pid)
     open(gen, "w").write(text)
@@ -196,6 +212,7 @@ def verus_property(pid, prop, tier, seed, out, work):
     cov["lemmas"] = sorted(proof_names)
     cov["assumed_lemmas"] = assumed_lemmas
     cov["delegated_contracts"] = [dict(function=ex.functions[k]["qual"], contract_assumed_here_discharged_under=v) for k, v in delegated.items() if k in fns]
+    cov["delegated_lemmas"] = [dict(lemma=n, assumed_here_discharged_under=v) for n, v in dl.items()]
     clause_counts = dict(requires=0, ensures=0, loop_specs=0, ghost_blocks=0)
     for k in fns:
         c = ex.functions[k]["contract"]
@@ -217,6 +234,28 @@ def verus_property(pid, prop, tier, seed, out, work):
     rl = [f for f in fails if f["rlimit"]]
     for f in rl:
         out.undecided.append("solver resource limit in %s (not a verdict)" % f["function"])
+    # Functions that the overlay does not know (new helpers introduced by an edit) are verified with `requires true` and
+    # give their callers no postcondition.  A failed obligation inside such a function, or inside a function that calls
+    # one, means "needs a contract", not "bug": it is reported as undecided (the concrete probe may still refute).
+    uncontracted = {ex.functions[k]["qual"]: k for k in fns if ex.functions[k]["contract"] is None}
+    if uncontracted:
+        fn_index = {}
+        for k in ex.functions:
+            fn_index.setdefault(ex.functions[k]["name"], []).append((k, ex.functions[k]["impl"], -1))
+        texts = {ch[1]: ch[2] for ch in ex.order if ch[0] == "fn"}
+        tainted = set(uncontracted)
+        for k in fns:
+            ms = extract._fn_mentions_any_arity(texts[k], ex.functions[k]["impl"], fn_index)
+            if any(m in uncontracted.values() for m in ms):
+                tainted.add(ex.functions[k]["qual"])
+        keep = []
+        for f in real:
+            if f["function"] in tainted:
+                out.undecided.append("obligation %s depends on `%s`, a function without a contract in the overlay (needs a contract, not a verdict)" % (
+                    verus_run.obligation_name(f), ", ".join(sorted(uncontracted))))
+            else:
+                keep.append(f)
+        real = keep
     out.verus_failures = real
     out.lemma_names = proof_names
     # assumption scan
@@ -242,7 +281,7 @@ def verus_property(pid, prop, tier, seed, out, work):
     else:
         for name in sorted(exec_names | proof_names):
             ent = cres.functions.get(name)
-            if ent is not None and ent["success"]:
+            if ent is not None and ent["success"] and not name.startswith("lemma_mm_compute"):
                 vac.append(name)
     cov["vacuity_canaries"] = dict(probed=len([n for n in (exec_names | proof_names) if n in cres.functions]), passed_vacuously=vac,
                                    rule="each exec body / lemma body prefixed with assert(false) must fail; one that verifies has an unsatisfiable precondition")
